@@ -47,6 +47,7 @@ const (
 	kScalar
 	kSlice
 	kNil
+	kOpaque // check-only mode: a value the translator does not model (memory, state, hashes ...)
 )
 
 type val struct {
@@ -143,6 +144,8 @@ type fnCtx struct {
 	notes    map[string]bool
 	paramIDs []int
 	loopDefs []string // named loop bodies, emitted before the function itself
+	checkOnly bool    // only the ownership discipline is checked; unmodelled calls are opaque, no Lean text is kept
+	expectSeg int     // number of items the function must leave in place of its inputs
 	loopN    int
 }
 
@@ -359,7 +362,71 @@ func poolCall(c *ast.CallExpr) (string, bool) {
 	return "", false
 }
 
-func (g *gen) expr(x ast.Expr, e *env, o *out) val {
+func (g *gen) expr(x ast.Expr, e *env, o *out) (v val) {
+	if g.fn == nil || !g.fn.checkOnly {
+		return g.expr0(x, e, o)
+	}
+	// check-only mode: whatever is outside the supported subset becomes an opaque value; its *big.Int
+	// operands are still checked as reads (or as a write for Set* methods); discipline failures propagate
+	snap := e.clone()
+	defer func() {
+		if r := recover(); r != nil {
+			a, ok := r.(abort)
+			if !ok || strings.Contains(a.msg, "discipline:") {
+				panic(r)
+			}
+			*e = *snap
+			v = g.opaque(x, e, o)
+		}
+	}()
+	return g.expr0(x, e, o)
+}
+
+func (g *gen) opaque(x ast.Expr, e *env, o *out) val {
+	touch := func(y ast.Expr) val {
+		v := g.expr(y, e, o)
+		if v.k == kCell {
+			g.readCell(y, e, v.cell)
+		}
+		return v
+	}
+	switch t := x.(type) {
+	case *ast.CallExpr:
+		var recv val
+		method := ""
+		if sel, ok := t.Fun.(*ast.SelectorExpr); ok {
+			method = sel.Sel.Name
+			recv = g.expr(sel.X, e, o)
+		}
+		for _, a := range t.Args {
+			touch(a)
+		}
+		if recv.k == kCell {
+			if strings.HasPrefix(method, "Set") {
+				g.writeCell(x, e, recv.cell, o, "0")
+				return recv
+			}
+			g.readCell(x, e, recv.cell)
+		}
+	case *ast.SelectorExpr:
+		touch(t.X)
+	case *ast.IndexExpr:
+		touch(t.X)
+		touch(t.Index)
+	case *ast.BinaryExpr:
+		touch(t.X)
+		touch(t.Y)
+	case *ast.ParenExpr:
+		touch(t.X)
+	case *ast.UnaryExpr:
+		touch(t.X)
+	case *ast.StarExpr:
+		touch(t.X)
+	}
+	return val{k: kOpaque}
+}
+
+func (g *gen) expr0(x ast.Expr, e *env, o *out) val {
 	switch t := x.(type) {
 	case *ast.ParenExpr:
 		v := g.expr(t.X, e, o)
@@ -1230,8 +1297,8 @@ func (g *gen) finishOp(n ast.Node, e *env) string {
 		}
 		seg = append(seg, id)
 	}
-	if len(seg) != 1 {
-		g.fail(n, "path leaves %d items in place of the %d inputs; the computational subset expects exactly 1", len(seg), g.fn.arity)
+	if len(seg) != g.fn.expectSeg {
+		g.fail(n, "discipline: path leaves %d items in place of the %d inputs; the jump table implies %d", len(seg), g.fn.arity, g.fn.expectSeg)
 	}
 	count := map[int]int{}
 	for _, c := range seg {
@@ -1249,6 +1316,19 @@ func (g *gen) finishOp(n ast.Node, e *env) string {
 		cs := e.cells[e.inputs[i]]
 		if cs.loc == locOwned {
 			g.fn.notes[fmt.Sprintf("popped input %s is dropped on some path (neither pushed back nor pooled)", cs.name)] = true
+		}
+	}
+	if len(seg) == 0 {
+		var pooled []string
+		for _, c := range e.pooled {
+			pooled = append(pooled, e.cells[c].origin+":"+e.cells[c].name)
+		}
+		g.fn.notes[fmt.Sprintf("path: pops %d, pushes 0, pooled [%s]", e.nPop, strings.Join(pooled, " "))] = true
+		return ""
+	}
+	for _, c := range seg {
+		if e.cells[c].garbage {
+			g.fail(n, "discipline: cell %s left on the stack was never set", e.cells[c].name)
 		}
 	}
 	res := e.cells[seg[0]]
@@ -1317,6 +1397,12 @@ func (g *gen) bindVar(s ast.Node, e *env, o *out, name string, v val, define boo
 		ln := g.unique(name)
 		o.emit("let %s := %s", ln, v.lean)
 		e.bind(name, val{k: kSlice, lean: ln})
+	case kOpaque:
+		if define {
+			e.bind(name, val{k: kOpaque})
+		} else {
+			e.rebind(name, val{k: kOpaque})
+		}
 	default:
 		g.fail(s, "unsupported value bound to %s", name)
 	}
@@ -1335,6 +1421,13 @@ func (g *gen) assign(a *ast.AssignStmt, e *env, o *out) {
 		for i, l := range a.Lhs {
 			id, ok := l.(*ast.Ident)
 			if !ok {
+				if g.fn.checkOnly {
+					g.opaque(l, e, o)
+					if vals[i].k == kCell {
+						g.readCell(a, e, vals[i].cell)
+					}
+					continue
+				}
 				g.fail(a, "unsupported assignment target %s", g.text(l))
 			}
 			define := a.Tok == token.DEFINE
@@ -1580,13 +1673,13 @@ func scalarByLean(e *env, lean string) (val, bool) {
 
 // ---- opcode functions ----------------------------------------------------------------------------
 
-func (g *gen) opFunc(name string, arity int) string {
+func (g *gen) opFunc(name string, arity int, expectSeg int, checkOnly bool) string {
 	key := "vm." + name
 	fd, ok := g.funcs[key]
 	if !ok {
 		panic(abort{fmt.Sprintf("the jump table executes %s, which is not a top-level function of core/vm/instructions.go", name)})
 	}
-	g.fn = &fnCtx{pkg: "vm", name: name, kind: "op", used: map[string]bool{}, arity: arity, notes: map[string]bool{}}
+	g.fn = &fnCtx{pkg: "vm", name: name, kind: "op", used: map[string]bool{}, arity: arity, notes: map[string]bool{}, checkOnly: checkOnly, expectSeg: expectSeg}
 	defer func() { g.fn = nil }()
 	want := []string{"pc", "interpreter", "contract", "memory", "stack"}
 	var have []string
@@ -1616,6 +1709,9 @@ func (g *gen) opFunc(name string, arity int) string {
 		notes = append(notes, n)
 	}
 	sort.Strings(notes)
+	if checkOnly {
+		return fmt.Sprintf("  `vm.%s`:\n    %s", name, strings.Join(notes, "\n    "))
+	}
 	doc := fmt.Sprintf("`vm.%s` (a0 = top of stack). Ownership discipline checked; per path:\n  %s", name, strings.Join(notes, "\n  "))
 	return strings.Join(g.fn.loopDefs, "\n") + fmt.Sprintf("/-- %s -/\ndef %s (%s : Int) : Int :=\n%s\n", doc, name, strings.Join(sig, " "), indent(body, 1))
 }
@@ -1742,8 +1838,21 @@ func genC15(outDir string) (err error) {
 			continue
 		}
 		done[fn] = o.MinStack
-		opDefs = append(opDefs, g.opFunc(fn, o.MinStack))
+		opDefs = append(opDefs, g.opFunc(fn, o.MinStack, 1, false))
 		translated = append(translated, fn)
+	}
+
+	// the hand-modelled stack/memory/storage opcodes: ownership discipline only (bodies are modelled by hand in Model.lean)
+	var checked []string
+	for _, o := range table {
+		switch o.Name {
+		case "POP", "MLOAD", "MSTORE", "MSTORE8", "SLOAD", "SSTORE":
+			fn := shortFn(o.Execute)
+			if _, ok := g.funcs["vm."+fn]; !ok {
+				return fmt.Errorf("opcode %s is executed by %s, which is not a top-level function of instructions.go", o.Name, fn)
+			}
+			checked = append(checked, g.opFunc(fn, o.MinStack, 1024+o.MinStack-o.MaxStack, true))
+		}
 	}
 
 	var sb strings.Builder
@@ -1761,6 +1870,7 @@ func genC15(outDir string) (err error) {
 	for _, d := range opDefs {
 		sb.WriteString(d + "\n")
 	}
+	sb.WriteString("/-! ## ownership discipline also checked (no Lean text: these opcodes are modelled by hand in Model.lean;\nunmodelled calls are opaque, their *big.Int operands count as reads, Set* methods as writes)\n" + strings.Join(checked, "\n") + "\n-/\n\n")
 	// ---- live table
 	sb.WriteString("/-! ## the live jump table -/\n\n")
 	enum := func(name string, get func(vm.VerifOpInfoC15) string) {
